@@ -21,6 +21,7 @@ RULE = (
     "VarsManager.trans_fcn_grad / trans_f_grad_hess / trans_grad_hessp for two-sided, lower and upper bounds.  non-trivial = >=3 "
     "free parameters of >=2 kinds and gradient norm > 1e-3; distinct = (model, card key, bound set)."
 )
+RULE += '  Also: Gaussian constraint declared on the second name of a tie; the same likelihood object after one parameter was fixed and freed again (reduced / permuted Hessian).'
 ASSUMPTIONS = [
     "interior points only; all logged arguments > 1e-5 (above the clip_log knee) else skipped",
     "FD: h in {1e-4, 5e-5} with Richardson; a component whose two step sizes disagree by more than 10x tolerance is skipped as ill-conditioned",
